@@ -29,6 +29,15 @@ MAP_ORDER_DEPENDENT = {"iter", "iter_mut", "keys", "values", "values_mut", "drai
 def run(ctx):
     F = ctx.facts
     g = mir.callgraph(F)
+    # Z6: a depth-limited search is not on the clock: with no clock and no move time given `go` computes no time budget, so no timer
+    # thread can end the search early (the result would then depend on how fast the machine is)
+    from . import p13
+    ub, why = p13.untimed_budget(F)
+    ctx.check("C19.Z6", "no-time-budget-without-time-parameters", ub is not None and all(v == ("variant", "std::prelude::v1::None") for _, v in ub),
+              fn=p13.GO, file=F.fn(p13.GO)["file"],
+              what="`go depth N` (no clock, no movetime) gets a time budget: a timer can stop the fixed-depth search, and which depth it "
+                   "reached then depends on wall-clock time and machine load", expected="no budget (None)",
+              found=[(s_, hir.fmt(v, 80)) for s_, v in ub] if ub is not None else why)
     # Z1
     for root in ROOTS:
         F.fn(root)
@@ -170,6 +179,10 @@ def run(ctx):
     for n, anc in hir.walk(ent["hir"]["body"]):
         if n.get("k") == "SLet" and n["pat"].get("k") == "PBind" and n["pat"]["name"] == "killer_moves":
             kil = hir.fmt(esym(n["init"]), 40)
+    # (an array of arrays of None - several killer slots per ply - is just as fresh)
+    import re as _re
+    while kil and _re.fullmatch(r"repeat\(repeat\((.*)\)\)", kil):
+        kil = "repeat(%s)" % _re.fullmatch(r"repeat\(repeat\((.*)\)\)", kil).group(1)
     ctx.check("C19.Z5", "killers-fresh-per-iteration", kil == "repeat(v1::None)", fn=ent["path"], file=ent["file"],
               what="the killer table must be a fresh array of None", found=kil)
     # Z6
